@@ -1,5 +1,5 @@
 """C14 -- dimension-reduction post-processing keeps the guarantee it started from."""
-from . import wrappers, pepsolve, common, mosekprog
+from . import wrappers, pepsolve, common, mosekprog, solveprog
 from . import c16
 
 LEVEL = "other"
@@ -18,6 +18,7 @@ def run(ctx):
     pepsolve.r_ret(ctx)
     pepsolve.r_primalflow(ctx)
     pepsolve.r_heurcall(ctx)
+    solveprog.r_solve_program(ctx, {"duals", "heur", "primal", "return"})
     wrappers.r_heur(ctx)
     mosekprog.r_heur_objective(ctx)
     wrappers.r_mainvars(ctx)
